@@ -193,6 +193,17 @@ def campaign(run: common.Run) -> None:
     # navigation of JSON-like documents along paths drawn from the document (members that are null / false / 0 / '' / [] / {}), and near misses
     common.drive(run, body, {"p": gen.document_program()}, 600 if q else 8000, seed_salt=3)
 
+    # matches() on subjects with line breaks and patterns rich in '.', classes and anchors (RE2 defaults: '.' does not match a newline, $ only at the end)
+    def body_matches(t, pat, form):
+        lit_t, lit_p = ("lit", "string", t), ("lit", "string", pat)
+        node = ("method", lit_t, "matches", (lit_p,)) if form else ("call", "matches", (lit_t, lit_p))
+        run.event("matches-with-line-breaks" if "\n" in t else "matches-plain")
+        check_program(run, node, {}, run.hyp_fail)
+
+    common.drive(run, body_matches, {"t": st.text(alphabet="ab.\n", max_size=5) | st.sampled_from(["a\nb", "\n", "x\n", "\nab", "a\n\nb"]),
+                                      "pat": gen.regex_pattern() | st.sampled_from(["a.b", ".", "a.*b", "^.$", "..", "x.", "a.+b", "[^a]", "^a$", "b$", "a[^b]b", "(a|.)b"]), "form": st.booleans()},
+                 500 if q else 6000, seed_salt=4)
+
     for i, (name, src, kinds) in enumerate(LAWS):
         def law_body(payloads, name=name, src=src, kinds=kinds):
             check_law(run, name, src, kinds, payloads, run.hyp_fail)
